@@ -112,6 +112,14 @@ class Indicator(ABC):
         self.candles_lifespan = manager.candles_lifespan
         self.candlestick_type = manager.candlestick_type
 
+        # An indicator that already worked on other candles moves completely:
+        # its helpers follow it and nothing still points into the old list
+        self._active_index = 0
+        for indicator in list(self.sub_indicators.values()) + list(
+            self.managed_indicators.values()
+        ):
+            indicator.candle_manager = manager
+
     @property
     def name(self) -> str:
         """The indicator name that will be saved into the Candles"""
